@@ -110,6 +110,21 @@ theorem toUnicode_injective (s t : List Nat) (hs : isUnicode s = true) (ht : isU
     (h : toUnicodeString s = toUnicodeString t) : s = t := by
   rw [(toUnicode_id_iff s).2 hs, (toUnicode_id_iff t).2 ht] at h; exact h
 
+/-- the returned `String`, taken as an SMT string again, is Unicode -/
+theorem toUnicode_isUnicode (s : List Nat) : isUnicode (toUnicodeString s) = true :=
+  (isUnicode_iff _).2 (toUnicode_scalar s)
+
+/-- converting twice changes nothing more -/
+theorem toUnicode_idempotent (s : List Nat) :
+    toUnicodeString (toUnicodeString s) = toUnicodeString s :=
+  (toUnicode_id_iff _).2 (toUnicode_isUnicode s)
+
+/-- `is_unicode` and `to_unicode_string` distribute over concatenation (`str_concat`) -/
+theorem toUnicode_append (s t : List Nat) :
+    toUnicodeString (s ++ t) = toUnicodeString s ++ toUnicodeString t
+    ∧ isUnicode (s ++ t) = (isUnicode s && isUnicode t) := by
+  simp [toUnicodeString, isUnicode]
+
 /-- the hypotheses are satisfiable, and the exclusions are real: a surrogate is a good SMT character
     that is not Unicode and does not survive the round trip -/
 example : isUnicode [0x41, 0xD7FF, 0xE000, 0x2FFFF] = true
